@@ -571,8 +571,49 @@ def _obs_diff_keys(a, b):
 
 
 # ====================================================================== the per-value history
-def check_value(ctx, v, origin, light=False):
-    """JSON, repr and behavioural round trip of one value.  Returns the JSON text."""
+class Outcome:
+    """What check_value found: JSON text, the copy, and whether the copy was equal / structurally identical."""
+    __slots__ = ("txt", "y", "eq", "clean")
+
+    def __init__(self, txt=None, y=None, eq=False, clean=False):
+        self.txt, self.y, self.eq, self.clean = txt, y, eq, clean
+
+
+def _quiet_same(a, b):
+    try:
+        return _peq2(a, b)
+    except _EqRaised:
+        return False
+
+
+def _pair_culprit(x, y, depth=0):
+    """Innermost pair of container elements (x_i, y_i) that do not compare equal."""
+    if depth < 6:
+        if isinstance(x, (list, tuple)) and isinstance(y, (list, tuple)) and len(x) == len(y):
+            for a, b in zip(x, y):
+                if not _quiet_same(a, b):
+                    return _pair_culprit(a, b, depth + 1)
+        elif isinstance(x, dict) and isinstance(y, dict) and len(x) == len(y) and all(k in y for k in x):
+            for k in x:
+                if not _quiet_same(x[k], y[k]):
+                    return _pair_culprit(x[k], y[k], depth + 1)
+    return x, y
+
+
+def _eq_raiser(x, depth=0):
+    """Innermost stored object whose `==` with itself raises."""
+    if depth < 8:
+        for c in _children(x)[:40]:
+            try:
+                c == c  # noqa
+                copy.copy(c) == c  # noqa
+            except Exception:  # noqa
+                return _eq_raiser(c, depth + 1)
+    return x
+
+
+def check_value(ctx, v, origin, light=False, repr_checks=True):
+    """JSON, repr and behavioural round trip of one value.  Returns an Outcome."""
     import cirq
 
     x = v.obj
@@ -585,7 +626,7 @@ def check_value(ctx, v, origin, light=False):
     except Exception as e:  # noqa  (x was accepted by its public constructor: writing it must not fail)
         ctx.check(False, "json-writable", "C11:to-json-raises:%s:%s" % (type(e).__name__, _slug(str(e))),
                   "to_json(x) raised %s: %s" % (type(e).__name__, str(e)[:300]), where=_where(e), **wit)
-        return None
+        return Outcome()
     ctx.ok("json-writable")
     _cover(txt)
     try:
@@ -593,10 +634,11 @@ def check_value(ctx, v, origin, light=False):
     except Exception as e:  # noqa
         ctx.check(False, "json-readable", "C11:read-json-raises:%s:%s:%s" % (cname, type(e).__name__, _slug(str(e))),
                   "read_json(to_json(x)) raised %s: %s" % (type(e).__name__, str(e)[:300]), where=_where(e), **wit)
-        return txt
+        return Outcome(txt)
     ctx.ok("json-readable")
     txt2 = cirq.to_json(y)
-    top_container = isinstance(x, (list, tuple, dict, np.ndarray)) or type(x).__module__.split(".")[0] in ("pandas", "numpy", "builtins")
+    container = isinstance(x, (list, tuple, dict))
+    top_container = container or isinstance(x, np.ndarray) or type(x).__module__.split(".")[0] in ("pandas", "numpy", "builtins")
 
     eq_raised = None
     try:
@@ -606,20 +648,28 @@ def check_value(ctx, v, origin, light=False):
     sdiffs = _sdiff(x, y)
     jdiffs = [] if txt2 == txt else _json_tree_diffs(json.loads(txt), json.loads(txt2))
 
-    def mech(default):
-        if not eq and cname in EXPLAINERS:
-            k = EXPLAINERS[cname](x, y)
-            if k:
-                return k
-        return _classify(sdiffs, jdiffs, default, eq)
-
+    # ---- equality, and one mechanism key for everything that follows from an unequal copy
+    fail_key = None
     if eq_raised is not None:
-        # the value cannot even be compared with its copy; field-by-field comparison below still judges the round trip
-        ctx.check(False, "json-roundtrip-eq", "C11:eq-raises:" + cname, "comparing x with its JSON copy raised " + eq_raised, **wit)
+        # the value cannot even be compared with its copy; the field-by-field comparison below still judges the round trip
+        cul = _eq_raiser(x)
+        ctx.check(False, "json-roundtrip-eq", "C11:eq-raises:" + _cls(cul), "comparing x with its JSON copy raised " + eq_raised, **wit)
         eq = not sdiffs
     else:
-        ctx.check(eq, "json-roundtrip-eq", mech("C11:roundtrip-not-equal:" + cname),
+        if not eq:
+            xc, yc = _pair_culprit(x, y) if container else (x, y)
+            cdiffs = _sdiff(xc, yc) if container else sdiffs
+            fail_key = None
+            if _cls(xc) in EXPLAINERS:
+                fail_key = EXPLAINERS[_cls(xc)](xc, yc)
+            if fail_key is None:
+                fail_key = _classify(cdiffs, jdiffs if not container else [], "C11:roundtrip-not-equal:" + _cls(xc), False)
+        ctx.check(eq, "json-roundtrip-eq", fail_key or "?",
                   lambda: "read_json(to_json(x)) != x; got %s ; differences: %s" % (repr(y)[:300], _diff_txt(sdiffs)), **wit)
+
+    def mech(default):
+        return fail_key if fail_key is not None else _classify(sdiffs, jdiffs, default, eq)
+
     if not top_container and not isinstance(x, enum.IntEnum):  # IntEnum members are written as their int (stored corpus: [1, 2])
         ctx.check(type(y) is type(x), "json-roundtrip-type", "C11:roundtrip-type:" + cname,
                   lambda: "type %s became %s" % (type(x).__name__, type(y).__name__), **wit)
@@ -629,9 +679,9 @@ def check_value(ctx, v, origin, light=False):
         ctx.check(hy and hashy == hashx, "json-roundtrip-hash", mech("C11:roundtrip-hash:" + cname),
                   "hash(read_json(to_json(x))) != hash(x)", **wit)
     ry = repr(y)
-    if ry == rx or type(x).__repr__ is object.__repr__:
+    if not repr_checks or ry == rx or type(x).__repr__ is object.__repr__:
         ctx.ok("json-roundtrip-repr")
-    else:
+    elif eq:
         # the copy may print the same value in another spelling (Duration(nanos=1) / Duration(picos=1000), a gate given as
         # a gate / as its GateFamily).  Judged only when repr(x) itself evaluates back to x (otherwise the repr is at fault,
         # which is the repr check's business): then repr(copy) must evaluate to x as well.
@@ -650,18 +700,19 @@ def check_value(ctx, v, origin, light=False):
                 repr_ok = False
             ctx.check(repr_ok, "json-roundtrip-repr", mech("C11:roundtrip-repr:" + cname),
                       lambda: "repr of the JSON copy no longer describes x: %s" % ry[:400], **wit)
-    ctx.check(txt2 == txt or not jdiffs, "json-idempotent", mech("C11:second-generation-json-differs:" + cname),
-              lambda: "to_json(read_json(to_json(x))) != to_json(x); fields: %r" % (jdiffs[:4],), **wit)
-    # field-by-field: one observation per value, one violation per distinct lost field
-    ctx.ok("json-roundtrip-structure")
-    seen = set()
-    for d in sdiffs:
-        k = _classify([d], [], "C11:roundtrip-structure:" + cname, eq)
-        if k in seen:
-            continue
-        seen.add(k)
-        ctx.fail(k, "field %s.%s lost or changed by the JSON round trip: %s -> %s (path %s); y == x is %s"
-                 % (d.owner, d.field, d.a, d.b, d.path, eq), **wit)
+    if eq:
+        ctx.check(txt2 == txt or not jdiffs, "json-idempotent", mech("C11:second-generation-json-differs:" + cname),
+                  lambda: "to_json(read_json(to_json(x))) != to_json(x); fields: %r" % (jdiffs[:4],), **wit)
+        # silent loss: equal by ==, yet a stored field differs (one observation per value, one violation per distinct field)
+        ctx.ok("json-roundtrip-structure")
+        seen = set()
+        for d in sdiffs:
+            k = _classify([d], [], "C11:roundtrip-structure:" + cname, eq)
+            if k in seen:
+                continue
+            seen.add(k)
+            ctx.fail(k, "field %s.%s is lost or changed by the JSON round trip although the copy compares equal: %s -> %s (path %s)"
+                     % (d.owner, d.field, d.a, d.b, d.path), **wit)
 
     # behaviour, judged by the generator's description of x where one exists, else original-vs-copy through the protocols
     if v.spec is not None:
@@ -679,16 +730,19 @@ def check_value(ctx, v, origin, light=False):
         ctx.check(not bad, "json-roundtrip-behaviour", mech("C11:roundtrip-behaviour:%s:%s" % (cname, ",".join(bad)[:60])),
                   lambda: "public protocols disagree between x and its JSON copy on %s: %r vs %r"
                           % (bad, {k: ox.get(k) for k in bad[:2]}, {k: oy.get(k) for k in bad[:2]}), **wit)
+    out = Outcome(txt, y, eq, eq and not sdiffs)
+    if not repr_checks:
+        return out
 
     # repr evaluates back to an equal value (same namespace as the stored .repr files)
     z = None
     foreign = type(x).__module__.split(".")[0] in ("sympy", "pandas", "numpy", "datetime", "builtins")
-    if foreign and not isinstance(x, (list, tuple, dict)):
+    if foreign and not container:
         ctx.reject("repr-eval:not-a-cirq-value")  # sympy / pandas / numpy print for humans; no evaluable-repr contract
-        return txt
+        return out
     if type(x).__repr__ is object.__repr__:
         ctx.reject("repr-eval:class-defines-no-repr")
-        return txt
+        return out
     try:
         z = _ev(rx)
     except Exception:  # noqa
@@ -731,7 +785,7 @@ def check_value(ctx, v, origin, light=False):
             if hx:
                 hz, hashz = _hashable(z)
                 ctx.check(hz and hashz == hashx, "repr-eval-hash", "C11:repr-eval-hash:" + cname, "hash(eval(repr(x))) != hash(x)", **wit)
-    return txt
+    return out
 
 
 def _val_before_ref(ctx, txt, wit):
@@ -769,6 +823,8 @@ def _examples():
         for f in FILES:
             if f["inward"] or f["name"] in _S["skip"].get(f["pkg"], ()) or f["name"] in MUTANT_SKIP:
                 continue
+            if f["name"].split(".")[0] in ("sympy", "pandas", "datetime"):
+                continue  # values of other libraries (the encoder's sympy.Float support is named "approx")
             if os.path.exists(f["repr"]) and os.path.getsize(f["repr"]) < 40000:
                 ex.append(f)
         _S["examples"] = ex
@@ -834,14 +890,15 @@ def sec_generated(ctx, rng, case):
     gens = _S["gens"]
     name, fn = gens[_gen_index(case, len(gens))]
     v = fn(rng)
-    txt = check_value(ctx, v, "typed")
-    if txt is None:
+    res = check_value(ctx, v, "typed")
+    txt = res.txt
+    if txt is None or res.y is None:
         ctx.distinct(("gen-unwritable", name, repr(v.obj)[:200]), nontrivial=True)
         return
     if case % 7 == 0:
         gz = cirq.read_json_gzip(gzip_raw=cirq.to_json_gzip(v.obj))
-        plain = cirq.read_json(json_text=txt)
-        ctx.check(_same(gz, plain) and not _sdiff(plain, gz), "gzip-roundtrip-eq", "C11:gzip-differs-from-plain-json:" + _cls(v.obj),
+        plain = res.y
+        ctx.check(not _sdiff(plain, gz), "gzip-roundtrip-eq", "C11:gzip-differs-from-plain-json:" + _cls(v.obj),
                   "read_json_gzip(to_json_gzip(x)) differs from read_json(to_json(x))", gen=v.gen, repr=repr(v.obj)[:400])
     _val_before_ref(ctx, txt, dict(gen=v.gen))
     ctx.distinct(("gen", _digest(txt)), nontrivial='"cirq_type"' in txt)
@@ -858,7 +915,8 @@ def sec_mutants(ctx, rng, case):
         return
     f = ex[_gen_index(case, len(ex))]
     text = open(f["repr"]).read()
-    mutated, n = JV.mutate_repr(text, rng)
+    # timestamps are written as float seconds: a perturbed year/microsecond leaves the range in which that is exact
+    mutated, n = JV.mutate_repr(text, rng, numbers="datetime.datetime(" not in text)
     if mutated is None:
         ctx.reject("mutant:no-literal")
         return
@@ -878,9 +936,13 @@ def sec_mutants(ctx, rng, case):
         try:
             t_o, t_m = cirq.to_json(o), cirq.to_json(m)
         except Exception as e:  # noqa
-            # a perturbed literal that the constructor accepted but that cannot be written: report with its own key
-            ctx.check(False, "mutant-writable", "C11:mutant-not-writable:" + _cls(m), "%s: %s" % (type(e).__name__, e),
-                      file=f["name"], repr=repr(m)[:500])
+            # a perturbed literal can leave the documented domain without the constructor noticing (sympy atoms outside the
+            # supported list such as zoo, zero dimensions): counted, not judged
+            ctx.reject("mutant:not-writable:" + type(e).__name__)
+            continue
+        shape = _try(lambda: cirq.qid_shape(m, None))
+        if isinstance(shape, tuple) and any(d < 1 for d in shape):
+            ctx.reject("mutant:degenerate-dimension")
             continue
         if t_o == t_m:
             ctx.distinct(("mutant-same", f["name"]), nontrivial=False)
@@ -925,27 +987,32 @@ def sec_composed(ctx, rng, case):
     import cirq
 
     v = JV.compose(rng, _S["gens"])
-    txt = check_value(ctx, v, "composed", light=True)
-    if txt is None:
+    # (the printed form of nested values is judged on the un-nested values in `generated`)
+    res = check_value(ctx, v, "composed", light=True, repr_checks=False)
+    txt = res.txt
+    if txt is None or res.y is None:
         return
     wit = dict(gen=v.gen, repr=repr(v.obj)[:600])
     order = _val_before_ref(ctx, txt, wit)
-    y = cirq.read_json(json_text=txt)
+    y = res.y
     fx, fy = _collect_frozen(v.obj, []), _collect_frozen(y, [])
-    ok = len(fx) == len(fy) and all(_same(a, b) and not _sdiff(a, b) for a, b in zip(fx, fy))
-    ctx.check(ok, "shared-subcircuits-survive", "C11:shared-frozen-circuit",
-              "the FrozenCircuits reachable in the copy are not the ones of the original (%d vs %d)" % (len(fx), len(fy)), **wit)
+    if res.clean:  # (an unequal / lossy copy has already been reported with its own mechanism)
+        ok = len(fx) == len(fy) and all(_same(a, b) and not _sdiff(a, b) for a, b in zip(fx, fy))
+        ctx.check(ok, "shared-subcircuits-survive", "C11:shared-frozen-circuit",
+                  "the FrozenCircuits reachable in the copy are not the ones of the original (%d vs %d)" % (len(fx), len(fy)), **wit)
     if v.info and v.info.get("shared"):
         nval = sum(1 for t, _ in order if t == "VAL")
         nref = sum(1 for t, _ in order if t == "REF")
         distinct_ids = len({id(c) for c in fx})
         # every FrozenCircuit object is written in full at most once; further occurrences are REFs
-        ctx.check(1 <= nval <= distinct_ids and nref >= 1, "val-ref-memo", "C11:val-ref-memo",
+        upper_ok = nval <= distinct_ids or not v.info.get("exact", True)
+        ctx.check(nval >= 1 and upper_ok and nref >= 1, "val-ref-memo", "C11:val-ref-memo",
                   "VAL=%d REF=%d for %d occurrences of %d distinct FrozenCircuit objects" % (nval, nref, len(fx), distinct_ids), **wit)
-        fc = v.info["fc"]
-        same = [c for c in fy if _same(c, fc)]
-        ctx.check(len(same) >= 2 and all(not _sdiff(fc, c) for c in same), "shared-subcircuit-equal-at-all-depths",
-                  "C11:shared-frozen-circuit-depth", "the shared FrozenCircuit is not equal at all of its occurrences", **wit)
+        if res.clean:
+            fc = v.info["fc"]
+            same = [c for c in fy if _same(c, fc)]
+            ctx.check(len(same) >= 2 and all(not _sdiff(fc, c) for c in same), "shared-subcircuit-equal-at-all-depths",
+                      "C11:shared-frozen-circuit-depth", "the shared FrozenCircuit is not equal at all of its occurrences", **wit)
     ctx.distinct(("comp", _digest(txt)), nontrivial='"cirq_type"' in txt)
     ctx.sample({"generator": v.gen, "json_bytes": len(txt), "frozen_occurrences": len(fx)})
 
@@ -1006,6 +1073,14 @@ def _eq(a, b):
     return r is not NotImplemented and bool(r)
 
 
+def _eq_raises(a):
+    try:
+        a == a  # noqa
+        return False
+    except Exception:  # noqa
+        return True
+
+
 def sec_eqhash(ctx, rng, case):
     name, pool, dup_groups = _near_duplicates(rng, case)
     # numpy / pandas payloads have element-wise ==; the contract is about Cirq values
@@ -1016,15 +1091,29 @@ def sec_eqhash(ctx, rng, case):
     hs = [_hashable(p) for p in pool]
     for i in range(n):
         for j in range(n):
-            eqm[i][j] = _eq(pool[i], pool[j])
+            try:
+                r = pool[i] == pool[j]
+                ctx.ok("eq-total")
+            except Exception as e:  # noqa
+                # == must answer (True / False / NotImplemented) for any other object
+                cul = _eq_raiser(pool[i]) if i == j else pool[i]
+                ctx.check(False, "eq-total", "C11:eq-raises:" + _cls(cul), "a == b raised %s: %s" % (type(e).__name__, str(e)[:200]),
+                          a=repr(pool[i])[:300], b=repr(pool[j])[:300])
+                continue
+            eqm[i][j] = bool(r.all()) if isinstance(r, np.ndarray) else (r is not NotImplemented and bool(r))
     for i in range(n):
         wit = dict(gen=name, a=repr(pool[i])[:300])
+        if not eqm[i][i] and not _eq(pool[i], pool[i]) and _eq_raises(pool[i]):
+            continue
         ctx.check(eqm[i][i], "eq-reflexive", "C11:eq-not-reflexive:" + _cls(pool[i]), "x != x", **wit)
         for j in range(i + 1, n):
             wit2 = dict(gen=name, a=repr(pool[i])[:300], b=repr(pool[j])[:300], ta=_cls(pool[i]), tb=_cls(pool[j]))
             ctx.check(eqm[i][j] == eqm[j][i], "eq-symmetric", "C11:eq-not-symmetric:%s/%s" % tuple(sorted((_cls(pool[i]), _cls(pool[j])))),
                       "a == b is %s but b == a is %s" % (eqm[i][j], eqm[j][i]), **wit2)
-            ne = pool[i] != pool[j]
+            try:
+                ne = pool[i] != pool[j]
+            except Exception:  # noqa  (reported below as eq-raises)
+                continue
             ne = bool(ne.any()) if isinstance(ne, np.ndarray) else bool(ne)
             ctx.check(ne == (not eqm[i][j]), "ne-consistent", "C11:ne-inconsistent:" + _cls(pool[i]), "a != b is not the negation of a == b", **wit2)
             if eqm[i][j] and hs[i][0] and hs[j][0]:
@@ -1141,8 +1230,6 @@ def _copy_history(ctx, x, gen):
     if hx and ok:
         hp, hashp = _hashable(p)
         ctx.check(hp and hashp == hashx and {x: 1}.get(p) == 1, "pickle-hash", "C11:pickle-hash:" + cname, "", **wit)
-    if ok:
-        ctx.check(repr(p) == repr(x), "pickle-repr", "C11:pickle-repr:" + cname, "", **wit)
     return blob, hx
 
 
